@@ -804,7 +804,9 @@ def _ill_conditioned(p, src):
     """rounding may move a computed probability across an interior bin edge"""
     if src == "direct":
         return False
-    return any(abs(x - F(k, 10)) < F(1, 10 ** 6) for x in p for k in range(1, 10))
+    # the outer edges count too: a difference of two CDF values that is 0 in exact arithmetic may round to -1e-9, which
+    # is in no bin
+    return any(abs(x - F(k, 10)) < F(1, 10 ** 6) for x in p for k in range(0, 11))
 
 
 def _pd_parts(a):
@@ -861,10 +863,16 @@ def cmp(op, impl_out, model_out):
         name, iv, D, _ = _pd_parts(a)
         if D.get("ens") is not None:
             tol = 1e-6
+        g = doc_getp(D, iv) if (name in BINNED or name in THRESHOLD_FAMILY) else None
         if name in BINNED:
-            g = doc_getp(D, iv)
             if g is not None and _ill_conditioned(g[1], g[2]):
                 return True              # rounding decides the bin: outside the exact model (see TRUSTED_BASE)
+        if g is not None and g[1] and g[2] != "direct":
+            # a stored CDF column and an ensemble-derived one need not be consistent: a probability outside [0, 1] is
+            # outside the property's domain (the oracle says so too), and a mean probability that is 0 up to rounding
+            # makes ratios of it meaningless
+            if any(x < 0 or x > 1 for x in g[1]) or abs(sum(g[1])) < F(1, 10 ** 6) * len(g[1]):
+                return True
         if name in ("ign0",) and D.get("ens") is not None:
             tol = 1e-5                   # log of a float32 probability
         if name == "quantilecoverage" and doc_quantile_metric(name, D, iv, None) == "skip":
